@@ -549,7 +549,13 @@ def run(spec, res):
         if spec.get('int_source'):
             # an integer-typed source axis (level index, integer pressure
             # levels) with fractional targets
-            xs = np.round(xs * 3).astype('i8')
+            # (signed and unsigned storage: pressure levels as ushort ...)
+            it = ['i8', 'u2', 'i4', 'u4'][spec['seed'] % 4]
+            xs = np.round(xs * 3)
+            if it.startswith('u') or True:
+                xs = xs - xs.min() + 1
+            xs = xs.astype(it)
+            nxs = nxs - np.array(spec['xs']).min() + 1. / 3.
             if np.unique(xs).size == xs.size and xs.size >= 2:
                 nxs = nxs * 3.0
                 facets.append('integer-source-axis')
@@ -604,6 +610,17 @@ def run(spec, res):
         field = sl * xs.reshape(zshape) + ic
         v = f.createVariable('lin', 'd', tuple(dims))
         v[...] = field
+        # the same field with one source level missing (NaN under the mask,
+        # as xarray writes float fields)
+        kmiss = int(rng.integers(0, xs.size)) if mode == 'filedim' and \
+            spec['seed'] % 3 == 0 and xs.size >= 3 else None
+        if kmiss is not None:
+            fm = np.ma.masked_invalid(np.where(
+                (np.arange(xs.size) == kmiss).reshape(zshape), np.nan, field))
+            vm = f.createVariable('linm', 'd', tuple(dims),
+                                  fill_value=np.nan)
+            vm[...] = fm
+            facets.append('masked-source-level')
         other = f.createVariable('other', 'd', tuple(
             d for d in dims if d != 'z')) if rank > 1 else None
         try:
@@ -644,6 +661,34 @@ def run(spec, res):
                 problems.append('%s along axis %d of rank %d: linear profile '
                                 'not reproduced at %s: got %r expected %r'
                                 % (mode, ax, rank, j, got[j], exp[j]))
+            if kmiss is not None and 'linm' in out.variables.keys() and \
+                    got.shape == exp.shape:
+                # target levels bracketed by two VALID source levels are the
+                # linear profile; the others are not judged
+                gm = np.ma.array(out.variables['linm'][...])
+                order = np.argsort(xs)
+                sx = xs[order]
+                for j, t in enumerate(tz):
+                    hi_ = int(np.searchsorted(sx, t, side='left'))
+                    lo_ = max(hi_ - 1, 0)
+                    hi_ = min(hi_, sx.size - 1)
+                    if sx[hi_] == t:
+                        lo_ = hi_
+                    if order[lo_] == kmiss or order[hi_] == kmiss:
+                        continue
+                    col = np.moveaxis(np.ma.getdata(gm), ax, 0)[j]
+                    cm = np.moveaxis(np.ma.getmaskarray(gm), ax, 0)[j]
+                    ce = np.moveaxis(exp, ax, 0)[j]
+                    if cm.any() or not np.all(np.isfinite(col)) or np.abs(
+                            col - ce).max() > 1e-8 * (1 + np.abs(ce).max()) \
+                            + 1e3 * np.finfo('f8').eps * np.abs(xs).max() * \
+                            max(1.0, float(np.abs(sl).max())):
+                        problems.append(
+                            'masked source level %d: target %r lies between '
+                            'two valid levels but comes out as %s '
+                            '(expected %s)' % (kmiss, t, col.ravel()[:3],
+                                               ce.ravel()[:3]))
+                        break
             if len(out.dimensions['z']) != nxs.size:
                 problems.append('dimension z has length %d, expected %d'
                                 % (len(out.dimensions['z']), nxs.size))
